@@ -1,9 +1,11 @@
 (* Model-side counterparts of the whole function bodies that xlate/pyxlate.py translates from the current
    source (coq/Gen/SrcFuns.v, tied in coq/Gen/FunTie.v), where the model has no function of that name because
-   it inlines the code: the attrs post-init checks of Epoch and AsymmetricMigration.  The lemmas show that the
-   model's builders run exactly these checks on the record they return. *)
-From Coq Require Import Bool List String.
-From Demes Require Import Base.Num Base.Py Model.MDM Model.Resolve Proofs.ResolveInv.
+   it inlines the code: the attrs post-init checks of Epoch, AsymmetricMigration and Pulse.  The lemmas show that the
+   model's builders run exactly these checks on the record they return.  Also the loop combinators the translator
+   emits (forM2_ for `for x, y in zip(xs, ys)`) with the lemmas the tie tactic uses to bring loops of assertions to
+   the forallb / forall2b form of Model/Close.v, and extensionality of the loop combinators (a respelt loop body). *)
+From Coq Require Import Bool List String Arith.
+From Demes Require Import Base.Num Base.Py Model.MDM Model.Close Model.Resolve Proofs.ResolveInv.
 Import ListNotations.
 Local Open Scope string_scope.
 Local Open Scope list_scope.
@@ -14,6 +16,56 @@ Definition phead {A} (l : list A) : res A :=
 
 (* xs[-1] *)
 Definition plast {A} (l : list A) : res A := phead (rev l).
+
+(* for x, y in zip(xs, ys): body      (zip stops at the shorter list) *)
+Fixpoint forM2_ {A B} (f : A -> B -> res unit) (l1 : list A) (l2 : list B) : res unit :=
+  match l1, l2 with
+  | x :: l1', y :: l2' => f x y ;;; forM2_ f l1' l2'
+  | _, _ => Ok tt
+  end.
+
+(* a loop whose body is one assertion fails exactly when the assertion fails on some element *)
+Lemma forM_assert {A} (c : A -> bool) l :
+  forM_ (fun x => if c x then Ok tt else Err AssertErr) l = if forallb c l then Ok tt else Err AssertErr.
+Proof.
+  induction l as [|a l IH]; cbn; [reflexivity|].
+  destruct (c a); cbn; [exact IH|reflexivity].
+Qed.
+
+Lemma forM2_assert {A B} (c : A -> B -> bool) l1 l2 :
+  forM2_ (fun x y => if c x y then Ok tt else Err AssertErr) l1 l2
+  = if forall2b c l1 l2 then Ok tt else Err AssertErr.
+Proof.
+  revert l2. induction l1 as [|a l1 IH]; intros [|b l2]; cbn; try reflexivity.
+  destruct (c a b); cbn; [apply IH|reflexivity].
+Qed.
+
+(* respelt loop bodies *)
+Lemma forall2b_ext {A B} (f g : A -> B -> bool) l1 l2 :
+  (forall x y, f x y = g x y) -> forall2b f l1 l2 = forall2b g l1 l2.
+Proof.
+  intro E. revert l2. induction l1 as [|a l1 IH]; intros [|b l2]; cbn; try reflexivity.
+  rewrite E, IH. reflexivity.
+Qed.
+
+Lemma forallb_ext_all {A} (f g : A -> bool) l : (forall x, f x = g x) -> forallb f l = forallb g l.
+Proof. intro E. induction l as [|a l IH]; cbn; [reflexivity|]. rewrite E, IH. reflexivity. Qed.
+
+Lemma forM_ext_all {A} (f g : A -> res unit) l : (forall x, f x = g x) -> forM_ f l = forM_ g l.
+Proof. intro E. induction l as [|a l IH]; cbn; [reflexivity|]. rewrite E, IH. reflexivity. Qed.
+
+Lemma forM2_ext_all {A B} (f g : A -> B -> res unit) l1 l2 :
+  (forall x y, f x y = g x y) -> forM2_ f l1 l2 = forM2_ g l1 l2.
+Proof.
+  intro E. revert l2. induction l1 as [|a l1 IH]; intros [|b l2]; cbn; try reflexivity.
+  rewrite E, IH. reflexivity.
+Qed.
+
+Lemma forM_all_ok {A} (f : A -> res unit) l : (forall x, In x l -> f x = Ok tt) -> forM_ f l = Ok tt.
+Proof.
+  induction l as [|a l IH]; intro H; cbn; [reflexivity|].
+  rewrite (H a (or_introl eq_refl)). cbn. apply IH. intros x Hx. apply H. now right.
+Qed.
 
 Section FunSites.
   Context {N : NumOps}.
@@ -29,6 +81,16 @@ Section FunSites.
   Definition mig_post_init (m : mig) : res unit :=
     if String.eqb (m_src m) (m_dst m) then Err ValueErr
     else if negb (ngt (m_start m) (m_end m)) then Err ValueErr
+    else Ok tt.
+
+  (* Pulse.__attrs_post_init__, in the code's own order; xs.count(x) is count_occ *)
+  Definition pulse_post_init (p : pulse) : res unit :=
+    forM_ (fun source =>
+             if String.eqb source (p_dst p) then Err ValueErr
+             else if negb (Nat.eqb (count_occ string_dec (p_srcs p) source) 1) then Err ValueErr
+             else Ok tt) (p_srcs p) ;;;
+    if negb (Nat.eqb (List.length (p_srcs p)) (List.length (p_props p))) then Err ValueErr
+    else if ngt (pysum (p_props p)) n1 then Err ValueErr
     else Ok tt.
 
   (* every epoch the model builds has passed the post-init checks, and conversely an epoch whose fields pass the
@@ -89,5 +151,29 @@ Section FunSites.
     mbind H r Hr. mbind H u4 Hr1. mraise H Hdist. mraise H Hord. mraise H Hov.
     injection H as <-. cbn.
     eexists; split; [reflexivity|]. unfold mig_post_init; cbn. rewrite Hdist, Hord. reflexivity.
+  Qed.
+
+  (* every pulse the model appends has passed the post-init checks.  The model makes the two per-source checks in
+     aggregate form (dest not among the sources; the sources without duplicates), the code makes them source by
+     source (source == dest; sources.count(source) != 1): the first implies the second *)
+  Lemma add_pulse_post_init g sources dest time props g' :
+    add_pulse g sources dest time props = Ok g' ->
+    exists p, g_pulses g' = g_pulses g ++ [p] /\ pulse_post_init p = Ok tt.
+  Proof.
+    intro H. unfold add_pulse in H.
+    mbind H srcl Hsrcl. mbind H u0 Hc. mbind H d Hd. mbind H srcs Hsrcs.
+    mbind H u1 Hti. mraise H Htn. mbind H dd Hdd. mbind H de' Hde. mbind H t0 Ht0.
+    mraise H Hneq. mbind H u2 Hsts. mbind H sn Hsn. mraise H Hsn0. mbind H dn Hdn.
+    mbind H t Ht. mbind H u3 Hpos. mbind H u4 Hfin. mbind H prs Hprs.
+    mraise H Hmem. mraise H Hnd. mraise H Hlen. mraise H Hsum. injection H as <-. cbn.
+    eexists; split; [reflexivity|]. unfold pulse_post_init; cbn [p_srcs p_dst p_props].
+    rewrite forM_all_ok.
+    - cbn [bind]. rewrite Hlen, Hsum. reflexivity.
+    - intros s Hs.
+      assert (String.eqb s dn = false) as ->.
+      { destruct (String.eqb s dn) eqn:E; [|reflexivity]. apply String.eqb_eq in E. subst s.
+        exfalso. exact (mem_not_in _ _ Hmem Hs). }
+      apply negb_false_iff in Hnd. apply nodupb_spec in Hnd.
+      rewrite (proj1 (NoDup_count_occ' string_dec sn) Hnd s Hs). reflexivity.
   Qed.
 End FunSites.
